@@ -1,0 +1,37 @@
+//go:build verif
+
+package fasthttp
+
+// Contracts for bytesconv_table.go, checked by /verif/gocv (comment-only; compiled to nothing).
+//
+// Each lookup table must equal the predicate that defines it, for every byte value. The tables are read
+// from the constants of the current tree on every run; the bounded quantifiers have constant bounds and
+// are expanded into 256 ground instances each.
+
+//@ spec isalpha(c int) bool = (65 <= c && c <= 90) || (97 <= c && c <= 122)
+//@ spec isunreserved(c int) bool = isalpha(c) || isdigit(c) || c == '-' || c == '_' || c == '.' || c == '~'
+//@ spec istchar(c int) bool = isalpha(c) || isdigit(c) || c == '!' || c == '#' || c == '$' || c == '%' || c == '&' ||
+//@     c == '\'' || c == '*' || c == '+' || c == '-' || c == '.' || c == '^' || c == '_' || c == '`' || c == '|' || c == '~'
+//@ spec ispathsafe(c int) bool = isunreserved(c) || c == '$' || c == '&' || c == '+' || c == ',' || c == '/' || c == ':' ||
+//@     c == ';' || c == '=' || c == '@'
+//@ spec isfieldvchar(c int) bool = (33 <= c && c <= 126) || c == 32 || c == 9 || c >= 128
+//@ spec hexval1(c int) int = isdigit(c) ? c - 48 : (97 <= c && c <= 102) ? c - 87 : (65 <= c && c <= 70) ? c - 55 : 16
+//@ spec b2i(b bool) int = b ? 1 : 0
+
+//@ lemma byteTables
+//@   property C32
+//@   ensures[hex2int]   len(hex2intTable) == 256 && forall c in [0,256): hex2intTable[c] == hexval1(c)
+//@   ensures[toLower]   len(toLowerTable) == 256 && forall c in [0,256): toLowerTable[c] == ((65 <= c && c <= 90) ? c + 32 : c)
+//@   ensures[toUpper]   len(toUpperTable) == 256 && forall c in [0,256): toUpperTable[c] == ((97 <= c && c <= 122) ? c - 32 : c)
+//@   ensures[argEscape] len(quotedArgShouldEscapeTable) == 256 &&
+//@                      forall c in [0,256): quotedArgShouldEscapeTable[c] == b2i(!isunreserved(c))
+//@   ensures[pathEscape] len(quotedPathShouldEscapeTable) == 256 &&
+//@                      forall c in [0,256): quotedPathShouldEscapeTable[c] == b2i(!ispathsafe(c))
+//@   ensures[fieldName] len(validHeaderFieldByteTable) == 128 &&
+//@                      forall c in [0,128): validHeaderFieldByteTable[c] == b2i(istchar(c))
+//@   ensures[fieldValue] len(validHeaderValueByteTable) == 256 &&
+//@                      forall c in [0,256): validHeaderValueByteTable[c] == b2i(isfieldvchar(c))
+//@   ensures[method]    len(validMethodValueByteTable) == 256 &&
+//@                      forall c in [0,256): validMethodValueByteTable[c] == b2i(c < 128 && istchar(c))
+//@   ensures[hexdigits] len(upperhex) == 16 && len(lowerhex) == 16 &&
+//@                      forall k in [0,16): hexval1(upperhex[k]) == k && hexval1(lowerhex[k]) == k
